@@ -4,7 +4,7 @@ from ost import *
 
 class C14(OutstationProp):
     id = "C14"
-    proof_targets = ["Outstation/SessionC14Proofs.vo"]
+    proof_targets = ["Outstation/SessionC14Proofs.vo", "Outstation/FullCorollaries.vo"]
     property_file = "Properties/C14.v"
     rule = ("unsolicited-enabled sessions: updates, ENABLE/DISABLE_UNSOLICITED, right / wrong / missing unsolicited "
             "confirms, solicited requests of every kind during the wait, clock advances around the confirm timeout and "
